@@ -55,10 +55,45 @@ def case_name(alias, unit, qc, cap):
     return f"{'alias' if alias else 'distinct'}|{unit}|{qc}|cap={cap}"
 
 
-def inv_move(ctx, k):
+def move_roles(I, st):
+    """Is `st` the per-substance move loop of Container._transfer?  `for (s, a) in <SRC>.contents.items():` whose body stores
+    into <SRC>.contents[s] and into <DST>.contents[s] a value built from `a * <RATIO>`.  Returns the three names (read off
+    the AST, so renaming the locals does not lose the invariant) or None."""
+    import ast
+    if not (I.call_stack and I.call_stack[-1] == FN and isinstance(st, ast.For)):
+        return None
+    it = st.iter
+    if not (isinstance(it, ast.Call) and isinstance(it.func, ast.Attribute) and it.func.attr == 'items'
+            and isinstance(it.func.value, ast.Attribute) and it.func.value.attr == 'contents'
+            and isinstance(it.func.value.value, ast.Name)):
+        return None
+    if not (isinstance(st.target, ast.Tuple) and len(st.target.elts) == 2 and all(isinstance(e, ast.Name) for e in st.target.elts)):
+        return None
+    src = it.func.value.value.id
+    amount = st.target.elts[1].id
+    stored = set()
+    ratio = None
+    for n in ast.walk(st):
+        if isinstance(n, ast.Assign):
+            for t in n.targets:
+                if isinstance(t, ast.Subscript) and isinstance(t.value, ast.Attribute) and t.value.attr == 'contents' \
+                        and isinstance(t.value.value, ast.Name):
+                    stored.add(t.value.value.id)
+        if isinstance(n, ast.BinOp) and isinstance(n.op, ast.Mult):
+            names = [x.id for x in (n.left, n.right) if isinstance(x, ast.Name)]
+            if amount in names and len(names) == 2:
+                ratio = [x for x in names if x != amount][0]
+    others = stored - {src}
+    if src not in stored or len(others) != 1 or ratio is None:
+        return None
+    return {'src': src, 'dst': others.pop(), 'ratio': ratio}
+
+
+def inv_move(ctx, k, roles=None):
     env = ctx.env
-    src, to = env.lookup('source_container'), env.lookup('to')
-    r = real(env.lookup('ratio'))
+    roles = roles or {'src': 'source_container', 'dst': 'to', 'ratio': 'ratio'}
+    src, to = env.lookup(roles['src']), env.lookup(roles['dst'])
+    r = real(env.lookup(roles['ratio']))
     S0a, S0m = ctx.amt0, ctx.mem0
     T0a, T0m = ctx.pre_field(to, 'contents')
     sa_, sm_ = src.fields['contents'].amt, src.fields['contents'].mem
@@ -70,11 +105,12 @@ def inv_move(ctx, k):
         z3.Implies(z3.Not(done), z3.And(sa_[X] == S0a[X], ta_[X] == T0a[X], tm_[X] == T0m[X]))))
 
 
-def post_move(ctx):
+def post_move(ctx, roles=None):
     """After the move loop: the Sigma-lin consequences for the two result maps (antecedents obliged as aux)."""
     I, env = ctx.I, ctx.env
-    src, to = env.lookup('source_container'), env.lookup('to')
-    r = real(env.lookup('ratio'))
+    roles = roles or {'src': 'source_container', 'dst': 'to', 'ratio': 'ratio'}
+    src, to = env.lookup(roles['src']), env.lookup(roles['dst'])
+    r = real(env.lookup(roles['ratio']))
     S0a = ctx.amt0
     T0a, _ = ctx.pre_field(to, 'contents')
     sa_, ta_ = src.fields['contents'].amt, to.fields['contents'].amt
@@ -119,9 +155,7 @@ def setup_case(I, alias, unit, qc, cap, finite=None):
         I.assume(z3.And(mS > 0, qbase >= 0, qbase <= mS))
     else:
         I.assume(z3.And(q >= 0, qbase > mS))
-    I.loop_invariants[MOVE_LOOP] = inv_move
-    if finite is None:
-        I.__dict__.setdefault('loop_post', {})[MOVE_LOOP] = post_move
+    I.__dict__.setdefault('loop_invariant_matchers', []).append((move_roles, inv_move, post_move if finite is None else None))
     return T, S, q, qbase, mS, volS, volT
 
 
